@@ -122,9 +122,8 @@ Proof.
   induction ts as [|t r IH]; intros tags voice acc; [reflexivity|]. destruct t as [raw|n a raw|n a raw|n raw|raw]; cbn [vtt_toks_c vtt_toks]; try apply IH.
   - destruct (vtt_match_tag raw) as [[name cls] annot]. destruct (str_eqb name n_v); apply IH.
   - destruct tags as [|t0 tr]; [cbn [length Nat.ltb Nat.leb removelast]; apply IH|].
-    change (Nat.ltb 0 (length (t0 :: tr))) with true. cbv iota. unfold slice_to.
-    destruct (Nat.leb (length (t0 :: tr) - 1) (length (t0 :: tr))) eqn:E; [|apply Nat.leb_gt in E; lia].
-    cbn [bind]. rewrite IH. do 2 f_equal. rewrite removelast_firstn_len. f_equal; lia.
+    change (Nat.ltb 0 (length (t0 :: tr))) with true. cbv iota.
+    rewrite (slice_to_pred_removelast (t0 :: tr) 364) by discriminate. cbn [bind]. apply IH.
 Qed.
 Lemma parse_text_vtt_ok line tags : parse_text_vtt_c line tags = Ok (parse_text_vtt line tags).
 Proof.
@@ -165,19 +164,99 @@ Theorem read_vtt_c_ok data : read_vtt_c data = read_vtt data.
 Proof. apply read_vtt_lines_c_ok. Qed.
 
 (* ---- the writer ---- *)
+(* the index loops of the writer are the structural iterations of Model/Vtt.v *)
+Lemma common_prefix_nil_r a : common_prefix a [] = O.
+Proof. destruct a; reflexivity. Qed.
+Lemma common_prefix_loop_ok fuel : forall n a b, (length a - n <= fuel)%nat ->
+  common_prefix_loop_c fuel n a b = Ok (n + common_prefix (skipn n a) (skipn n b))%nat.
+Proof.
+  induction fuel as [|fuel IH]; intros n a b Hf.
+  - cbn [common_prefix_loop_c]. rewrite (skipn_all2 a) by lia. cbn [common_prefix]. f_equal; lia.
+  - cbn [common_prefix_loop_c]. destruct (Nat.ltb n (length a)) eqn:Ea; cbn [andb].
+    + destruct (Nat.ltb n (length b)) eqn:Eb.
+      * apply Nat.ltb_lt in Ea, Eb.
+        destruct (nth_error a n) as [x|] eqn:Ex; [|apply nth_error_None in Ex; lia].
+        destruct (nth_error b n) as [y|] eqn:Ey; [|apply nth_error_None in Ey; lia].
+        unfold index. rewrite Ex, Ey. cbn [bind]. rewrite (skipn_nth a n x Ex), (skipn_nth b n y Ey). cbn [common_prefix].
+        destruct (str_eqb (tag_start x) (tag_start y)); [rewrite IH by lia; f_equal; lia | f_equal; lia].
+      * apply Nat.ltb_ge in Eb. rewrite (skipn_all2 b) by lia. rewrite common_prefix_nil_r. f_equal; lia.
+    + apply Nat.ltb_ge in Ea. rewrite (skipn_all2 a) by lia. cbn [common_prefix]. f_equal; lia.
+Qed.
+Lemma common_prefix_c_ok a b : common_prefix_c a b = Ok (common_prefix a b).
+Proof. unfold common_prefix_c. rewrite common_prefix_loop_ok by lia. reflexivity. Qed.
+Lemma tags_open_ok fuel : forall idx tags, (length tags - idx <= fuel)%nat ->
+  tags_open_c fuel idx tags = Ok (concat (map tag_start (skipn idx tags))).
+Proof.
+  induction fuel as [|fuel IH]; intros idx tags Hf.
+  - cbn [tags_open_c]. rewrite skipn_all2 by lia. reflexivity.
+  - cbn [tags_open_c]. destruct (Nat.ltb idx (length tags)) eqn:E.
+    + apply Nat.ltb_lt in E. destruct (nth_error tags idx) as [t|] eqn:Et; [|apply nth_error_None in Et; lia].
+      unfold index. rewrite Et. cbn [bind]. rewrite IH by lia. cbn [bind]. rewrite (skipn_nth tags idx t Et). reflexivity.
+    + apply Nat.ltb_ge in E. rewrite skipn_all2 by lia. reflexivity.
+Qed.
+Lemma firstn_S_nth {A} (l : list A) i x : nth_error l i = Some x -> firstn (S i) l = firstn i l ++ [x].
+Proof.
+  revert i. induction l as [|y l IH]; intros i H; [destruct i; discriminate|]. destruct i as [|i].
+  - cbn in H. injection H as ->. reflexivity.
+  - cbn [nth_error] in H. change (firstn (S (S i)) (y :: l)) with (y :: firstn (S i) l). rewrite (IH i H). reflexivity.
+Qed.
+Lemma tags_close_ok k : forall left tags, (k <= length tags)%nat ->
+  tags_close_c k left tags = Ok (concat (map tag_end (rev (skipn left (firstn k tags))))).
+Proof.
+  induction k as [|idx IH]; intros left tags Hk.
+  - cbn [tags_close_c firstn]. rewrite skipn_nil. reflexivity.
+  - cbn [tags_close_c]. destruct (nth_error tags idx) as [t|] eqn:Et; [|apply nth_error_None in Et; lia].
+    rewrite (firstn_S_nth tags idx t Et). destruct (Nat.leb left idx) eqn:E.
+    + apply Nat.leb_le in E. unfold index. rewrite Et. cbn [bind]. rewrite IH by lia. cbn [bind].
+      rewrite skipn_app, firstn_length, Nat.min_l by lia. replace (left - idx)%nat with O by lia. cbn [skipn].
+      rewrite rev_app_distr. reflexivity.
+    + apply Nat.leb_gt in E. rewrite skipn_all2; [reflexivity|]. rewrite app_length, firstn_length, Nat.min_l by lia. cbn [length]. lia.
+Qed.
 Lemma vrun_bytes_ok prev next r : vrun_bytes_c prev next r = Ok (vrun_bytes prev next r).
 Proof.
-  unfold vrun_bytes_c, vrun_bytes, run_tags. destruct r as [tx tg tm co].
-  destruct prev as [[ptx ptg ptm pco]|]; destruct next as [[ntx ntg ntm nco]|]; cbn [vr_text vr_tags vr_time vr_color];
-    destruct co as [c|]; destruct tg as [tg|]; try destruct ptg as [pt|]; try destruct ntg as [nt|];
-    cbn [is_some deref bind]; reflexivity.
+  unfold vrun_bytes_c, vrun_bytes, run_tags.
+  assert (Ec : (if is_some (vr_color r) then do c <- deref (vr_color r) 674; Ok (css_color c) else Ok []) =
+               Ok (match vr_color r with Some c => css_color c | None => [] end)) by (destruct (vr_color r); reflexivity).
+  assert (Et : (if is_some (vr_tags r) then deref (vr_tags r) 685 else Ok []) =
+               Ok (match vr_tags r with Some t => t | None => [] end)) by (destruct (vr_tags r); reflexivity).
+  rewrite Ec, Et. cbn [bind]. set (tags := match vr_tags r with Some t => t | None => [] end).
+  assert (Eo : (if is_some prev then do p <- deref prev 688;
+                  if is_some (vr_tags p) then do pt <- deref (vr_tags p) 689; common_prefix_c pt tags else Ok O else Ok O) =
+               Ok (match prev with Some p => match vr_tags p with Some pt => common_prefix pt tags | None => O end | None => O end)).
+  { destruct prev as [p|]; cbn [is_some deref bind]; [|reflexivity].
+    destruct (vr_tags p) as [pt|]; cbn [is_some deref bind]; [apply common_prefix_c_ok | reflexivity]. }
+  assert (El : (if is_some next then do n <- deref next 691;
+                  if is_some (vr_tags n) then do nt <- deref (vr_tags n) 692; common_prefix_c tags nt else Ok O else Ok O) =
+               Ok (match next with Some n => match vr_tags n with Some nt => common_prefix tags nt | None => O end | None => O end)).
+  { destruct next as [n|]; cbn [is_some deref bind]; [|reflexivity].
+    destruct (vr_tags n) as [nt|]; cbn [is_some deref bind]; [apply common_prefix_c_ok | reflexivity]. }
+  rewrite Eo, El. cbn [bind]. rewrite tags_open_ok by lia. cbn [bind]. rewrite tags_close_ok by lia. cbn [bind].
+  rewrite firstn_all. reflexivity.
 Qed.
-Lemma vruns_bytes_ok rs : forall prev, vruns_bytes_c prev rs = Ok (vruns_bytes prev rs).
+Definition prev_at (items : list vrun) (idx : nat) : option vrun := match idx with O => None | S k => nth_error items k end.
+Lemma vruns_loop_ok fuel : forall idx items, (length items - idx <= fuel)%nat ->
+  vruns_loop_c fuel idx items = Ok (vruns_bytes (prev_at items idx) (skipn idx items)).
 Proof.
-  induction rs as [|r rest IH]; intros prev; [reflexivity|]. cbn [vruns_bytes_c vruns_bytes]. rewrite vrun_bytes_ok, IH. reflexivity.
+  induction fuel as [|fuel IH]; intros idx items Hf.
+  - cbn [vruns_loop_c]. rewrite skipn_all2 by lia. reflexivity.
+  - cbn [vruns_loop_c]. destruct (Nat.ltb idx (length items)) eqn:E.
+    + apply Nat.ltb_lt in E. destruct (nth_error items idx) as [cur|] eqn:Ecur; [|apply nth_error_None in Ecur; lia].
+      assert (Ep : (if Nat.ltb 0 idx then do k <- idx_pred idx 659; do p <- index items k 659; Ok (Some p) else Ok None) =
+                   Ok (prev_at items idx)).
+      { destruct idx as [|k]; [reflexivity|]. cbn [Nat.ltb Nat.leb idx_pred bind prev_at].
+        destruct (nth_error items k) as [p|] eqn:Ek; [|apply nth_error_None in Ek; lia]. unfold index. rewrite Ek. reflexivity. }
+      assert (En : (if Nat.ltb idx (length items - 1) then do n <- index items (S idx) 662; Ok (Some n) else Ok None) =
+                   Ok (match skipn (S idx) items with n :: _ => Some n | [] => None end)).
+      { destruct (Nat.ltb idx (length items - 1)) eqn:E1.
+        - apply Nat.ltb_lt in E1. destruct (nth_error items (S idx)) as [n|] eqn:Es; [|apply nth_error_None in Es; lia].
+          unfold index. rewrite Es. cbn [bind]. rewrite (skipn_nth items (S idx) n Es). reflexivity.
+        - apply Nat.ltb_ge in E1. rewrite skipn_all2 by lia. reflexivity. }
+      rewrite Ep, En. cbn [bind]. unfold index. rewrite Ecur. cbn [bind]. rewrite vrun_bytes_ok. cbn [bind].
+      rewrite IH by lia. cbn [bind]. rewrite (skipn_nth items idx cur Ecur). cbn [vruns_bytes prev_at]. rewrite Ecur. reflexivity.
+    + apply Nat.ltb_ge in E. rewrite skipn_all2 by lia. reflexivity.
 Qed.
 Lemma vline_bytes_ok l : vline_bytes_c l = Ok (vline_bytes l).
-Proof. unfold vline_bytes_c, vline_bytes. rewrite vruns_bytes_ok. reflexivity. Qed.
+Proof. unfold vline_bytes_c, vline_bytes. rewrite vruns_loop_ok by lia. reflexivity. Qed.
 Lemma vlines_bytes_ok ls : vlines_bytes_c ls = Ok (concat (map vline_bytes ls)).
 Proof. induction ls as [|l t IH]; [reflexivity|]. cbn [vlines_bytes_c map concat]. rewrite vline_bytes_ok, IH. reflexivity. Qed.
 Lemma vitem_settings_ok it : vitem_settings_c it = Ok (vitem_settings it).
@@ -218,10 +297,8 @@ Proof.
   assert (Ets : (if is_some (vd_tsmap d) then do m <- deref (vd_tsmap d) 483; Ok ([10] ++ tsmap_string m) else Ok []) =
                 Ok (match vd_tsmap d with Some m => [10] ++ tsmap_string m | None => [] end)).
   { destruct (vd_tsmap d); reflexivity. }
-  rewrite Ets, styles_ok, regions_bytes_ok, vitems_bytes_ok. cbn [bind]. unfold slice_to.
-  match goal with |- (if Nat.leb (length ?c - 1) (length ?c) then _ else _) = _ => set (C := c) end.
-  destruct (Nat.leb (length C - 1) (length C)) eqn:E; [|apply Nat.leb_gt in E; lia].
-  f_equal. rewrite removelast_firstn_len. f_equal; lia.
+  rewrite Ets, styles_ok, regions_bytes_ok, vitems_bytes_ok. cbn [bind].
+  apply slice_to_pred_removelast. unfold p_webvtt. discriminate.
 Qed.
 
 (* ---- totality, now with content: no panic site of webvtt.go is reachable ---- *)
@@ -275,3 +352,238 @@ Proof. rewrite write_vtt_c_ok. unfold write_vtt. destruct (vd_items d); discrimi
 (* ---- nil elements inside Items: skipped (nonNilItems) ---- *)
 Theorem write_vtt_items_c_no_panic items d so ro p : write_vtt_items_c items d so ro <> Panic p.
 Proof. apply write_vtt_c_no_panic. Qed.
+
+(* ---- second audit, N6: the guards are load-bearing ----
+   Each function below is the checked function of Model/VttC.v with ONE guard removed and nothing else changed.  On the
+   input shown it returns Panic at the site the guard stands in front of, while the guarded function returns Ok / Err on
+   the same input.  (Go side: the index / slice expressions on these operand lengths do panic, checked with a throw-away
+   program, and sites 364, 659, 662, 688, 695, 704, 714 replayed on the library with the guard deleted: notes/C02.md N6.) *)
+(* emptiness test before [:len-1]: "if len(sa.WebVTTTags) > 0" removed (webvtt.go:363) *)
+Fixpoint vtt_toks_c_noguard (ts : list htok) (tags : list vtag) (voice : str) (acc : list vrun) : res (list vrun * str * list vtag) :=
+  match ts with
+  | [] => Ok (acc, voice, tags)
+  | HEnd _ _ :: r =>
+    do tags' <- slice_to_pred tags 364; vtt_toks_c_noguard r tags' voice acc
+  | HStart _ _ raw :: r =>
+    let '(name, cls, annot) := vtt_match_tag raw in
+    let classes := match cls with [] => [] | _ => Str.split [46] (trim_byte 46 cls) end in
+    let annotation := match annot with [] => [] | _ => trim_space annot end in
+    if str_eqb name n_v then
+      vtt_toks_c_noguard r tags (match voice with [] => annotation | _ => voice end) acc
+    else vtt_toks_c_noguard r (tags ++ [mkVtag name annotation classes]) voice acc
+  | HText raw :: r =>
+    vtt_toks_c_noguard r tags voice (acc ++ parse_text_token (match tags with [] => None | _ => Some tags end) raw)
+  | _ :: r => vtt_toks_c_noguard r tags voice acc
+  end.
+Definition parse_text_vtt_c_noguard (line : str) (tags : list vtag) : res (vline * list vtag) :=
+  do x <- vtt_toks_c_noguard (tokenize line) tags [] [];
+  let '(runs, voice, tags') := x in
+  Ok (mkVline runs voice, tags').
+(* length test before index: "if len(right) == 0" removed (webvtt.go:241) *)
+Definition step_cue_c_noguard (s : vstate) (line : str) : res vstate :=
+  let left := Str.split arrow line in
+  do r <- index left 1 240;
+  let right := fields r in
+  do l <- index left 0 247;
+  match parse_vtt l with
+  | None => Err EParse
+  | Some d0 =>
+    do e <- index right 0 251;
+    match parse_vtt e with
+    | None => Err EParse
+    | Some d1 =>
+      do sr <- (if Nat.ltb 1 (length right) then settings_loop_c (length right) 1 right (v_regions s) vset0 None else Ok (vset0, None));
+      let '(st, reg) := sr in
+      Ok (mkVst (close_vcur s) (Some (mkVitem (v_index s) d0 d1 (v_comments s) reg (Some st) None [])) (v_pre_lines s)
+                BText [] 0%Z (v_tags s) (v_styles s) (v_regions s) (v_tsmap s))
+    end
+  end.
+(* loop bound: "index < len(right)" removed from the cue settings loop (webvtt.go:259) *)
+Fixpoint settings_loop_c_noguard (fuel i : nat) (right : list str) (regions : list (str * vregion)) (s : vset) (reg : option str)
+  : res (vset * option str) :=
+  match fuel with
+  | O => Ok (s, reg)
+  | S fuel' =>
+      do f <- index right i 261;
+      let split := Str.split [58] f in
+      if Nat.leb (length split) 1 then Err EParse else
+      do k <- index split 0 273;
+      do v <- index split 1 275;
+      if str_eqb k k_align then settings_loop_c_noguard fuel' (S i) right regions (mkVset v (vs_line s) (vs_position s) (vs_size s) (vs_vertical s)) reg
+      else if str_eqb k k_line then settings_loop_c_noguard fuel' (S i) right regions (mkVset (vs_align s) v (vs_position s) (vs_size s) (vs_vertical s)) reg
+      else if str_eqb k k_position then settings_loop_c_noguard fuel' (S i) right regions (mkVset (vs_align s) (vs_line s) v (vs_size s) (vs_vertical s)) reg
+      else if str_eqb k k_regionk then
+        match aget v regions with
+        | Some rg => settings_loop_c_noguard fuel' (S i) right regions s (Some (rg_id rg))
+        | None => Err EUnknownRef
+        end
+      else if str_eqb k k_size then settings_loop_c_noguard fuel' (S i) right regions (mkVset (vs_align s) (vs_line s) (vs_position s) v (vs_vertical s)) reg
+      else if str_eqb k k_vertical then settings_loop_c_noguard fuel' (S i) right regions (mkVset (vs_align s) (vs_line s) (vs_position s) (vs_size s) v) reg
+      else settings_loop_c_noguard fuel' (S i) right regions s reg
+  end.
+(* length test before index: "if len(split) <= 1" removed inside the same loop (webvtt.go:267) *)
+Fixpoint settings_loop_c_noguard_split (fuel i : nat) (right : list str) (regions : list (str * vregion)) (s : vset) (reg : option str)
+  : res (vset * option str) :=
+  match fuel with
+  | O => Ok (s, reg)
+  | S fuel' =>
+    if Nat.ltb i (length right) then
+      do f <- index right i 261;
+      let split := Str.split [58] f in
+      do k <- index split 0 273;
+      do v <- index split 1 275;
+      if str_eqb k k_align then settings_loop_c_noguard_split fuel' (S i) right regions (mkVset v (vs_line s) (vs_position s) (vs_size s) (vs_vertical s)) reg
+      else if str_eqb k k_line then settings_loop_c_noguard_split fuel' (S i) right regions (mkVset (vs_align s) v (vs_position s) (vs_size s) (vs_vertical s)) reg
+      else if str_eqb k k_position then settings_loop_c_noguard_split fuel' (S i) right regions (mkVset (vs_align s) (vs_line s) v (vs_size s) (vs_vertical s)) reg
+      else if str_eqb k k_regionk then
+        match aget v regions with
+        | Some rg => settings_loop_c_noguard_split fuel' (S i) right regions s (Some (rg_id rg))
+        | None => Err EUnknownRef
+        end
+      else if str_eqb k k_size then settings_loop_c_noguard_split fuel' (S i) right regions (mkVset (vs_align s) (vs_line s) (vs_position s) v (vs_vertical s)) reg
+      else if str_eqb k k_vertical then settings_loop_c_noguard_split fuel' (S i) right regions (mkVset (vs_align s) (vs_line s) (vs_position s) (vs_size s) v) reg
+      else settings_loop_c_noguard_split fuel' (S i) right regions s reg
+    else Ok (s, reg)
+  end.
+(* emptiness test before [len-1]: "len(sa.WebVTTStyles) == 0 ||" removed (webvtt.go:167) *)
+Definition last_ends_brace_c_noguard (l : list str) : res bool :=
+  do x <- index l (length l - 1) 167; Ok (match rev x with 125 :: _ => true | _ => false end).
+(* nil test before dereference: "previous != nil &&" removed (webvtt.go:688) *)
+Definition vrun_bytes_c_noguard_prev (prev next : option vrun) (r : vrun) : res str :=
+  do color <- (if is_some (vr_color r) then do c <- deref (vr_color r) 674; Ok (css_color c) else Ok []);
+  do tags <- (if is_some (vr_tags r) then deref (vr_tags r) 685 else Ok []);
+  do opened <- (do p <- deref prev 688;
+                if is_some (vr_tags p) then do pt <- deref (vr_tags p) 689; common_prefix_c pt tags else Ok O);
+  do left <- (if is_some next then
+                do n <- deref next 691;
+                if is_some (vr_tags n) then do nt <- deref (vr_tags n) 692; common_prefix_c tags nt else Ok O
+              else Ok O);
+  do starts <- tags_open_c (length tags) opened tags;
+  do ends <- tags_close_c (length tags) left tags;
+  Ok ((match color with [] => [] | _ => [60;99;46] ++ color ++ [62] end) ++
+      starts ++
+      (if (0 <? vr_time r)%Z then [60] ++ format_vtt (vr_time r) ++ [62] else []) ++
+      escape_html (vr_text r) ++
+      ends ++
+      (match color with [] => [] | _ => [60;47;99;62] end)).
+(* nil test before dereference: "item.InlineStyle != nil" removed (webvtt.go:587) *)
+Definition vitem_settings_c_noguard (it : vitem) : res str :=
+    do s <- deref (vi_set it) 588;
+    do fb <- (if is_some (vi_fb it) then deref (vi_fb it) 591 else Ok vset0);
+    do rg <- (if is_some (vi_region it) then do id <- deref (vi_region it) 611; Ok ([32] ++ k_regionk ++ [58] ++ id) else Ok []);
+    Ok (setting k_align (vs_align s) (vs_align fb) ++ setting k_line (vs_line s) (vs_line fb) ++
+        setting k_position (vs_position s) (vs_position fb) ++ rg ++
+        setting k_size (vs_size s) (vs_size fb) ++ setting k_vertical (vs_vertical s) (vs_vertical fb)).
+(* Line.webVTTBytes: "if idx > 0" removed (webvtt.go:658) *)
+Fixpoint vruns_loop_c_noguard_prev (fuel idx : nat) (items : list vrun) : res str :=
+  match fuel with
+  | O => Ok []
+  | S fuel' =>
+    if Nat.ltb idx (length items) then
+      do prev <- (do k <- idx_pred idx 659; do p <- index items k 659; Ok (Some p));
+      do next <- (if Nat.ltb idx (length items - 1) then do n <- index items (S idx) 662; Ok (Some n) else Ok None);
+      do cur <- index items idx 664;
+      do x <- vrun_bytes_c prev next cur;
+      do y <- vruns_loop_c_noguard_prev fuel' (S idx) items;
+      Ok (x ++ y)
+    else Ok []
+  end.
+(* Line.webVTTBytes: "if idx < len(l.Items)-1" removed (webvtt.go:661) *)
+Fixpoint vruns_loop_c_noguard_next (fuel idx : nat) (items : list vrun) : res str :=
+  match fuel with
+  | O => Ok []
+  | S fuel' =>
+    if Nat.ltb idx (length items) then
+      do prev <- (if Nat.ltb 0 idx then do k <- idx_pred idx 659; do p <- index items k 659; Ok (Some p) else Ok None);
+      do next <- (do n <- index items (S idx) 662; Ok (Some n));
+      do cur <- index items idx 664;
+      do x <- vrun_bytes_c prev next cur;
+      do y <- vruns_loop_c_noguard_next fuel' (S idx) items;
+      Ok (x ++ y)
+    else Ok []
+  end.
+(* Line.webVTTBytes: the loop bound "idx < len(l.Items)" removed (webvtt.go:656) *)
+Fixpoint vruns_loop_c_noguard_bound (fuel idx : nat) (items : list vrun) : res str :=
+  match fuel with
+  | O => Ok []
+  | S fuel' =>
+      do prev <- (if Nat.ltb 0 idx then do k <- idx_pred idx 659; do p <- index items k 659; Ok (Some p) else Ok None);
+      do next <- (if Nat.ltb idx (length items - 1) then do n <- index items (S idx) 662; Ok (Some n) else Ok None);
+      do cur <- index items idx 664;
+      do x <- vrun_bytes_c prev next cur;
+      do y <- vruns_loop_c_noguard_bound fuel' (S idx) items;
+      Ok (x ++ y)
+  end.
+(* the opening-tags loop: the bound "idx < len(tags)" removed (webvtt.go:694) *)
+Fixpoint tags_open_c_noguard (fuel idx : nat) (tags : list vtag) : res str :=
+  match fuel with
+  | O => Ok []
+  | S fuel' =>
+      do t <- index tags idx 695;
+      do rest <- tags_open_c_noguard fuel' (S idx) tags;
+      Ok (tag_start t ++ rest)
+  end.
+(* the closing-tags loop: the bound "idx >= leftOpened" removed (webvtt.go:703); k = O is the Go int idx = -1, where the
+   bound stopped the loop: without it the body runs with tags[-1] *)
+Fixpoint tags_close_c_noguard (k left : nat) (tags : list vtag) : res str :=
+  match k with
+  | O => do i <- idx_pred O 704; do t <- index tags i 704; Ok (tag_end t)
+  | S idx =>
+      do t <- index tags idx 704;
+      do rest <- tags_close_c_noguard idx left tags;
+      Ok (tag_end t ++ rest)
+  end.
+(* webVTTTagsCommonPrefix: "n < len(a) &&" removed, "n < len(b) &&" removed (webvtt.go:714) *)
+Fixpoint common_prefix_loop_c_noguard_a (fuel n : nat) (a b : list vtag) : res nat :=
+  match fuel with
+  | O => Ok n
+  | S fuel' =>
+    if Nat.ltb n (length b) then
+      do x <- index a n 714;
+      do y <- index b n 714;
+      if str_eqb (tag_start x) (tag_start y) then common_prefix_loop_c_noguard_a fuel' (S n) a b else Ok n
+    else Ok n
+  end.
+Fixpoint common_prefix_loop_c_noguard_b (fuel n : nat) (a b : list vtag) : res nat :=
+  match fuel with
+  | O => Ok n
+  | S fuel' =>
+    if Nat.ltb n (length a) then
+      do x <- index a n 714;
+      do y <- index b n 714;
+      if str_eqb (tag_start x) (tag_start y) then common_prefix_loop_c_noguard_b fuel' (S n) a b else Ok n
+    else Ok n
+  end.
+
+Definition ex_end_tag : str := [60;47;99;62].                                               (* </c> *)
+Definition ex_cue_no_end : str := [48;48;58;48;48;58;48;49;46;48;48;48;32;45;45;62].        (* 00:00:01.000 --> *)
+Definition ex_tag_b : vtag := mkVtag [98] [] [].
+Definition ex_run : vrun := mkVrun [97] None 0%Z None.
+Definition ex_run_b : vrun := mkVrun [97] (Some [ex_tag_b]) 0%Z None.
+Definition ex_item_nil_style : vitem := mkVitem 0%Z 0%Z 0%Z [] None None None [].
+Definition is_ok {A} (r : res A) : bool := match r with Ok _ => true | _ => false end.
+Lemma vtt_reader_guards_load_bearing :
+  (parse_text_vtt_c_noguard ex_end_tag [] = Panic 364 /\ parse_text_vtt_c ex_end_tag [] = Ok (mkVline [] [], [])) /\
+  (step_cue_c_noguard vstate0 ex_cue_no_end = Panic 251 /\ step_cue_c vstate0 ex_cue_no_end = Err EParse) /\
+  (* left[1] behind the caller's strings.Contains(line, "-->"): the function entered without it *)
+  (step_cue_c vstate0 [97] = Panic 240 /\ is_ok (vtt_step_c vstate0 [97]) = true) /\
+  (settings_loop_c_noguard 2 1 [[97]; [97;58;98]] [] vset0 None = Panic 261 /\
+   settings_loop_c 2 1 [[97]; [97;58;98]] [] vset0 None = Ok (vset0, None)) /\
+  (settings_loop_c_noguard_split 2 1 [[97]; [97]] [] vset0 None = Panic 275 /\ settings_loop_c 2 1 [[97]; [97]] [] vset0 None = Err EParse) /\
+  (last_ends_brace_c_noguard [] = Panic 167 /\ last_ends_brace_c [] = Ok true).
+Proof. vm_compute. repeat split. Qed.
+Lemma vtt_writer_guards_load_bearing :
+  (vrun_bytes_c_noguard_prev None None ex_run = Panic 688 /\ vrun_bytes_c None None ex_run = Ok [97]) /\
+  (vitem_settings_c_noguard ex_item_nil_style = Panic 588 /\ vitem_settings_c ex_item_nil_style = Ok []) /\
+  (vruns_loop_c_noguard_prev 1 0 [ex_run] = Panic 659 /\ vruns_loop_c_noguard_next 1 0 [ex_run] = Panic 662 /\
+   vruns_loop_c 1 0 [ex_run] = Ok [97]) /\
+  (vruns_loop_c_noguard_bound 2 0 [ex_run] = Panic 664 /\ vruns_loop_c 2 0 [ex_run] = Ok [97]) /\
+  (tags_open_c_noguard 2 0 [ex_tag_b] = Panic 695 /\ tags_open_c 2 0 [ex_tag_b] = Ok [60;98;62]) /\
+  (tags_close_c_noguard 1 0 [ex_tag_b] = Panic 704 /\ tags_close_c 1 0 [ex_tag_b] = Ok [60;47;98;62]) /\
+  (common_prefix_loop_c_noguard_a 2 0 [ex_tag_b] [ex_tag_b; ex_tag_b] = Panic 714 /\
+   common_prefix_loop_c_noguard_b 2 0 [ex_tag_b; ex_tag_b] [ex_tag_b] = Panic 714 /\
+   common_prefix_loop_c 2 0 [ex_tag_b] [ex_tag_b; ex_tag_b] = Ok 1%nat /\
+   common_prefix_loop_c 2 0 [ex_tag_b; ex_tag_b] [ex_tag_b] = Ok 1%nat) /\
+  (* the whole line through the loops *)
+  vline_bytes_c (mkVline [ex_run_b; ex_run_b; ex_run] []) = Ok [60;98;62;97;97;60;47;98;62;97;10].
+Proof. vm_compute. repeat split. Qed.
